@@ -147,7 +147,8 @@ impl RectSpace {
         let unk = format!("HIRAGANA,{},{},{},{}\n", c.unk.0, c.unk.1, c.unk.2, up.join(","));
         let plugins = json!({
             "oovProviderPlugin": [regex, mecab, simple],
-            "connectionCostPlugin": [{"class": "com.worksap.nlp.sudachi.InhibitConnectionPlugin", "inhibitPair": [[c.inhibit.0, c.inhibit.1]]}],
+            // the pair under test sits between two valid pairs (a check of the list's extremes only must not pass)
+            "connectionCostPlugin": [{"class": "com.worksap.nlp.sudachi.InhibitConnectionPlugin", "inhibitPair": [[0, 0], [c.inhibit.0, c.inhibit.1], [self.n - 1, self.m - 1]]}],
         });
         (plugins, unk)
     }
@@ -216,7 +217,7 @@ impl Space for RectSpace {
                     for l in 0..self.n {
                         for r in 0..self.m {
                             let v = cm.cost(l as u16, r as u16) as i32;
-                            let inhibited = c.inhibit.0 == l as i64 && c.inhibit.1 == r as i64;
+                            let inhibited = (c.inhibit.0 == l as i64 && c.inhibit.1 == r as i64) || (l == 0 && r == 0) || (l == self.n - 1 && r == self.m - 1);
                             let exp = if inhibited { 32767 } else { self.matrix.cells[l][r] };
                             if v != exp {
                                 f.push(Failure::new("wrong-matrix-cell-edited", format!("{}: cost({}, {}) = {} after loading, expected {}", ctx, l, r, v, exp)));
